@@ -155,6 +155,9 @@ type SkelOpts struct {
 	KeepOb       func(o skel.Ob, e tmpl.Env) bool
 	Formatters   []string // formatter values to derive with (default: only "")
 	NoExpand     bool     // only the generator-side derivation is needed
+	// UnknownOptions: Config fields beyond the six of the flag table are unknown rather than zero in the
+	// derivation (the properties about what the options switch on and off, and about file effects)
+	UnknownOptions bool
 }
 
 func hasPrefix(s string, ps []string) bool {
@@ -224,6 +227,7 @@ func (c *Ctx) RunSkeletons(opt SkelOpts) {
 			}()
 			visited[i] = map[parse.Node]bool{}
 			model := tmpl.BuildModel(envs[i])
+			model.UnknownOptions = opt.UnknownOptions
 			// the data is derived from the generator: (*Mocker).Mock interpreted on the abstract package
 			dvs, err := tmpl.Derive(c.Prog, model, "")
 			if err != nil {
